@@ -726,6 +726,23 @@ def run(ctx, idx):
     from .C20 import accepts_domain
 
     accepts_domain(ctx, idx, "C01.l", only={"DataParameter"}, consequence="; ResultParameter.clean applies it to finished producers only, so a producer's first consumer is served and the second (or any consumer on a second run()) gets ParameterNotValid for the same result")
+    ctx.rule("C01.n", "Every command of an acyclic model is executed: no walk of the reference graph in Program.run reports a result reached along two chains as a loop (C02.k's reading - a `visited` collection that is never unwound refuses every diamond, and no command runs at all).")
+    from .coverage import false_cycle_reports
+
+    _fc = false_cycle_reports(idx, A)
+    if _fc:
+        for f_, line_, text_ in _fc[:2]:
+            ctx.violate("C01.n", "mpilot/program.py::Program.run::sharing-is-not-a-cycle", K.rel(f_), line_, text_)
+    else:
+        ctx.hold("C01.n", "mpilot/program.py::Program.run::sharing-is-not-a-cycle", "mpilot/program.py", A.program_run.node.lineno, "no reference walk confuses visited with on-the-current-chain", nontrivial=False)
+    ctx.rule("C01.m", "Each command receives the FINISHED result of the commands it references - the values its producer computed: no command writes in place through one of its inputs (C09.a's alias rule, listed here because a consumer that runs after such a write is fed something else than a consumer that ran before it, so what a command receives depends on the textual order of the commands).")
+    from . import arrayrules as R_
+
+    n_m = 0
+    for d_, r_ in R_.results(idx).values():
+        n_m += 1
+        R_.leaves_inputs_alone(ctx, "C01.m", d_, r_, "consumers that execute after this command are fed an altered result, consumers that ran before were not: what a command receives depends on the order of the commands")
+    ctx.floor("C01.m", "execute bodies", n_m, 30)
     ctx.count("modules", len(idx.modules))
     ctx.count("functions", len(idx.funcs))
     if _SOFT:
